@@ -55,6 +55,7 @@ def run(ctx, res):
         nnm.run_replay(ctx, res, oracle)
         return
     genarith.regenerate(ctx.pid, "nnm", res)   # regenerated tie: lam_to_eta, eta_to_lam, optimal_comparison
+    genarith.regenerate(ctx.pid, "nnm_estims", res)   # whole-function skeletons + formulas of every shipped estimator and bet
     cases, cr = nnm.run_corr(ctx.pid, ctx.rng, ctx.n(600, 8000),
                              kinds=["alpha_fixed", "alpha_shrink", "alpha_optcomp", "bet_fixed", "bet_agrapa", "sprt"],
                              maxlen=ctx.n(12, 14))
